@@ -16,6 +16,10 @@
 //	                                              last call, so state that one call leaves behind for the next
 //	                                              (a pool, a table of recent results) shows in a replayable line
 //	N <frag> <hex> <ops> | n<ok>:<hex text>:<complete>;r<hex rest>;…   Scanner session
+//	M <kind1> <hex1> <ops1> <kind2> <hex2> <ops2> | <session 1>;Z<text>:<complete>:<err>;<session 2>
+//	                                              ONE scanner, two inputs, every kind of reader (round 5,
+//	                                              round5.go): NewScanner over the first, ops1, Reset onto
+//	                                              the second, ops2
 //
 // Session ops: n Next (records result, Text, Complete), r Rest (records every byte read from it),
 // e Err (e0 nil, e1 io.EOF, e2 other), z Reset to a fresh reader of the same input (records z),
@@ -307,63 +311,83 @@ func exec1(in string, partial *[]string) string {
 		if len(f) > 3 {
 			ops = f[3]
 		}
-		each := func(tag string, stopAt int, panics bool) {
-			var toks []string
-			func() {
-				defer func() {
-					if p := recover(); p != nil && p != any(errCallback) {
-						panic(p) // a panic of the package, not of the callback
-					}
-				}()
-				sc.Each(func(tok string) bool {
-					toks = append(toks, tok)
-					if panics && len(toks) == stopAt {
-						panic(errCallback)
-					}
-					return len(toks) != stopAt
-				})
-			}()
-			obs = append(obs, held{pre: tag, toks: toks, hasToks: true, txt: sc.Text(), hasTxt: true, post: ":" + tr.B(sc.Complete())})
-		}
-		for _, op := range ops {
-			switch op {
-			case 'n':
-				ok := sc.Next()
-				obs = append(obs, held{pre: "n" + tr.B(ok) + ":", txt: sc.Text(), hasTxt: true, post: ":" + tr.B(sc.Complete())})
-			case 'r':
-				rest, _ := io.ReadAll(sc.Rest())
-				obs = append(obs, held{pre: "r", txt: string(rest), hasTxt: true})
-			case 'e':
-				switch sc.Err() {
-				case nil:
-					obs = append(obs, held{pre: "e0"})
-				case io.EOF:
-					obs = append(obs, held{pre: "e1"})
-				default:
-					obs = append(obs, held{pre: "e2"})
-				}
-			case 'z':
-				fr = newFrag(f[1], src)
-				sc.Reset(fr)
-				obs = append(obs, held{pre: "z"})
-			case 's':
-				toks := sc.Split()
-				obs = append(obs, held{pre: "s", toks: toks, hasToks: true, txt: sc.Text(), hasTxt: true, post: ":" + tr.B(sc.Complete())})
-			case 'a':
-				each("a", 0, false)
-			case 'b':
-				each("b", 1, false)
-			case 'c':
-				each("c", 2, false)
-			case 'x':
-				each("x", 1, true)
-			case 'y':
-				each("y", 2, true)
-			}
-		}
+		runSession(sc, ops, &obs, func() {
+			fr = newFrag(f[1], src)
+			sc.Reset(fr)
+		})
 		return strings.Join(flush(), ";")
+	case "M": // one scanner, two inputs (round5.go)
+		return execReuse(f, partial)
 	}
 	return "?"
+}
+
+// runSession performs the session ops on sc, appending one observation per op; reset is what the
+// op z does (nil: z is not an op of this kind of line)
+func runSession(sc *shell.Scanner, ops string, obs *[]held, reset func()) {
+	each := func(tag string, stopAt int, panics bool) {
+		var toks []string
+		func() {
+			defer func() {
+				if p := recover(); p != nil && p != any(errCallback) {
+					panic(p) // a panic of the package, not of the callback
+				}
+			}()
+			sc.Each(func(tok string) bool {
+				toks = append(toks, tok)
+				// read-only re-entrancy (round 5): inside the callback the scanner's own observers
+				// describe the token just handed over
+				if t := sc.Text(); t != tok {
+					toks = append(toks, "\x00Text() inside the callback of Each is not the token passed to it but "+t)
+				}
+				if panics && len(toks) == stopAt {
+					panic(errCallback)
+				}
+				return len(toks) != stopAt
+			})
+		}()
+		*obs = append(*obs, held{pre: tag, toks: toks, hasToks: true, txt: sc.Text(), hasTxt: true, post: ":" + tr.B(sc.Complete())})
+	}
+	for _, op := range ops {
+		switch op {
+		case 'n':
+			ok := sc.Next()
+			*obs = append(*obs, held{pre: "n" + tr.B(ok) + ":", txt: sc.Text(), hasTxt: true, post: ":" + tr.B(sc.Complete())})
+		case 'r':
+			rest, _ := io.ReadAll(sc.Rest())
+			*obs = append(*obs, held{pre: "r", txt: string(rest), hasTxt: true})
+		case 'e':
+			*obs = append(*obs, held{pre: errCode(sc.Err())})
+		case 'z':
+			if reset != nil {
+				reset()
+				*obs = append(*obs, held{pre: "z"})
+			}
+		case 's':
+			toks := sc.Split()
+			*obs = append(*obs, held{pre: "s", toks: toks, hasToks: true, txt: sc.Text(), hasTxt: true, post: ":" + tr.B(sc.Complete())})
+		case 'a':
+			each("a", 0, false)
+		case 'b':
+			each("b", 1, false)
+		case 'c':
+			each("c", 2, false)
+		case 'x':
+			each("x", 1, true)
+		case 'y':
+			each("y", 2, true)
+		}
+	}
+}
+
+func errCode(err error) string {
+	switch err {
+	case nil:
+		return "e0"
+	case io.EOF:
+		return "e1"
+	}
+	return "e2"
 }
 
 var classAlpha = []byte{'a', ' ', '\n', '\\', '\'', '"'}
@@ -473,7 +497,7 @@ func bigToken(r *tr.Rand, n int) string {
 func special(s string) bool { return strings.ContainsAny(s, " \t\n\\'\"|&;<>()$`*?[#~=%") }
 
 func main() {
-	tr.Main("C15: every single byte, all strings to length 3 (quick) / 4 (thorough) over a 28-symbol metacharacter alphabet for Quote and Split(Join), random lists of random strings, Unicode white space, hold cases (every result of a series of Quote/Join calls is read only after the last call, some after a GC), concurrent workers that read their results a window of calls later; C16: every byte value alone, inside a word and inside each kind of quoting, all strings to length 3 (quick) / 4 (thorough) over a 10-symbol alphabet with both blanks, NUL and a non-ASCII byte, all strings over the six tokenizer classes to length 6 (quick) / 8 (thorough) for Split, every Unicode white-space code point as UTF-8, scanner sessions under eleven reader fragmentations (fixed and random chunks, a last chunk delivered together with io.EOF, empty reads) with Rest after every number of Next calls under every fragmentation, Err/Reset/Scanner.Split/Each sessions, random long inputs, inputs and single tokens longer than bufio's buffer. Both: scale streams (scale.go) -- lengths, run lengths, element counts and reader chunk sizes 2^k-1, 2^k, 2^k+1 for k = 6..13 and beyond 2*4096, smallest first; C15: plain filler plus ONE special character class (each of the 22 bytes Quote protects, alone or with a single quote) at the end, start, around the leading power-of-two block, everywhere, sparse, alternating, through Quote, Join, Split(Join) and hold cases, lists of 2^k short elements; C16: 34 kinds of runs (bare / single- / double-quoted text, quoted blanks, escape runs, quotes and escapes opening exactly at the boundary, unterminated runs, continuation runs, separator runs of one class, many short tokens) through Split and through scanner sessions (Rest right after and right before the long token, full scan with Err, Scanner.Split, Each) under chunk sizes tied to the run length with the e and z flags. Round 4 (round4.go): K lines = histories of Quote / Join / Split(Join) / Split calls in ONE process with every result read after the last call -- exhaustive two-call histories over small near-equal (C15) or malformed (C16: all strings to length 2 over the six classes) strings, the equal-length collision pairs of corpus/common/hash-collisions.tsv (FNV-1a, FNV-1, CRC-32, 31-polynomial, djb2, Adler-32) quoted, joined and split one right after the other in both orders, with a third string in between, bare and with a common suffix that makes them need quotation, random histories over near-equal strings (one byte changed, two swapped, reversed, one more or less), a 300..4097-byte (thorough 8193) call before and between ordinary ones; every length 1..300 (thorough 600): C15 filler plus one special character of each of the 22 classes (last and one rotating position, with a single quote), element counts and joined lengths; C16 a token holding exactly L bytes (bare, double-quoted, single-quoted, half bare and half quoted) when each of 44 kinds of event arrives (the two-byte append after a backslash inside double quotes, escapes, continuations, quotes opening or closing, separators, end of input), with more bytes of the same token after it, through Split and a session under a rotating fragmentation, and seven of the events at every source offset 0..300; Each whose callback panics (recovered) at the first / second token, the scanner used on; 2-, 3- and 4-byte UTF-8 sequences, truncated, overlong and surrogate forms at the ends and in the middle of filler. A case is non-trivial when its input contains a quoting character, separator or metacharacter; distinct = distinct input lines.",
+	tr.Main("C15: every single byte, all strings to length 3 (quick) / 4 (thorough) over a 28-symbol metacharacter alphabet for Quote and Split(Join), random lists of random strings, Unicode white space, hold cases (every result of a series of Quote/Join calls is read only after the last call, some after a GC), concurrent workers that read their results a window of calls later; C16: every byte value alone, inside a word and inside each kind of quoting, all strings to length 3 (quick) / 4 (thorough) over a 10-symbol alphabet with both blanks, NUL and a non-ASCII byte, all strings over the six tokenizer classes to length 6 (quick) / 8 (thorough) for Split, every Unicode white-space code point as UTF-8, scanner sessions under eleven reader fragmentations (fixed and random chunks, a last chunk delivered together with io.EOF, empty reads) with Rest after every number of Next calls under every fragmentation, Err/Reset/Scanner.Split/Each sessions, random long inputs, inputs and single tokens longer than bufio's buffer. Both: scale streams (scale.go) -- lengths, run lengths, element counts and reader chunk sizes 2^k-1, 2^k, 2^k+1 for k = 6..13 and beyond 2*4096, smallest first; C15: plain filler plus ONE special character class (each of the 22 bytes Quote protects, alone or with a single quote) at the end, start, around the leading power-of-two block, everywhere, sparse, alternating, through Quote, Join, Split(Join) and hold cases, lists of 2^k short elements; C16: 34 kinds of runs (bare / single- / double-quoted text, quoted blanks, escape runs, quotes and escapes opening exactly at the boundary, unterminated runs, continuation runs, separator runs of one class, many short tokens) through Split and through scanner sessions (Rest right after and right before the long token, full scan with Err, Scanner.Split, Each) under chunk sizes tied to the run length with the e and z flags. Round 4 (round4.go): K lines = histories of Quote / Join / Split(Join) / Split calls in ONE process with every result read after the last call -- exhaustive two-call histories over small near-equal (C15) or malformed (C16: all strings to length 2 over the six classes) strings, the equal-length collision pairs of corpus/common/hash-collisions.tsv (FNV-1a, FNV-1, CRC-32, 31-polynomial, djb2, Adler-32) quoted, joined and split one right after the other in both orders, with a third string in between, bare and with a common suffix that makes them need quotation, random histories over near-equal strings (one byte changed, two swapped, reversed, one more or less), a 300..4097-byte (thorough 8193) call before and between ordinary ones; every length 1..300 (thorough 600): C15 filler plus one special character of each of the 22 classes (last and one rotating position, with a single quote), element counts and joined lengths; C16 a token holding exactly L bytes (bare, double-quoted, single-quoted, half bare and half quoted) when each of 44 kinds of event arrives (the two-byte append after a backslash inside double quotes, escapes, continuations, quotes opening or closing, separators, end of input), with more bytes of the same token after it, through Split and a session under a rotating fragmentation, and seven of the events at every source offset 0..300; Each whose callback panics (recovered) at the first / second token, the scanner used on; Round 5 (round5.go, C16): M lines = ONE scanner on two inputs - NewScanner over the first, a session, Reset onto the second, Text / Complete / Err right after the Reset, a session from the whole op set - for every pair of 17 reader kinds (strings.Reader, bytes.Reader, bytes.Buffer, bufio.Reader of three sizes, a one-byte ByteReader, a reader returning data with io.EOF, MultiReader, LimitReader, seven fragmentations) at 42 points of a first session (before any Next, between tokens, past the end, after Rest, after Scanner.Split, after Each to the end / stopped / panicked, inside an unterminated quotation), after NewScanner(nil), after a reader that fails after k bytes, with inputs longer than one and two bufio buffers, and random combinations: the second session must be that of a fresh scanner on the second input; inside every Each callback Text() must be the token passed to it; 2-, 3- and 4-byte UTF-8 sequences, truncated, overlong and surrogate forms at the ends and in the middle of filler. A case is non-trivial when its input contains a quoting character, separator or metacharacter; distinct = distinct input lines.",
 		exec, func(g *tr.G) {
 			switch g.Prop {
 			case "C15":
@@ -703,6 +727,9 @@ func main() {
 						sess(s, pickFrags(2))
 					}
 				}
+				// round 5 (round5.go): one scanner, two inputs -- Reset onto a second input through every
+				// kind of reader at every point of a first session, then the whole op set
+				genReuse(g)
 				// round 4 (round4.go): several Splits in one line (the pooled scanner as the call before
 				// left it), every token length and source offset 0..300 before every kind of event
 				kHistories(g)
